@@ -43,6 +43,8 @@ def _exec(self, s, st, frame):
         cur = self.eval(load, st)
         rhs = self.eval(s.value, st)
         v = self.binop(s.op, cur, rhs, s)
+        from .interp_expr import elementwise_seg
+        elementwise_seg(s.op, cur, rhs, v)
         self.bind(s.target, v, st, s)
         return st
     if isinstance(s, ast.Return):
@@ -217,6 +219,14 @@ def store_subscript(self, t, v, st, node):
                 new.rv = True if nv.rv and False else None
             new.nonneg = (b0.nonneg or b0.zero) and nv.nonneg
             new.role = base.role
+            if base.seg is not None and len(base.shape or ()) == 1:
+                from . import segmap
+                ia = _asint(idx)
+                vs = nv.seg
+                if vs is None and nv.shape == () and not nv.is_array and isinstance(v, Num):
+                    vs = None
+                if ia is not None and ia.a is not None and vs is not None:
+                    new.seg = segmap.setitem(base.seg, ia.a, vs)
         # write back
         tv = t.value
         if isinstance(tv, ast.Name):
@@ -435,6 +445,9 @@ def s_For(self, s, st, frame):
         arr = st.env[name]
         st.env[name] = Num(zero=True, shape=arr.shape, cplx=arr.cplx, taint=frozenset())
 
+    _el, _ln = self.iter_elem(it, s.iter, s)
+    frame.loopn.append(_ln)
+
     def head(state):
         el, _n = self.iter_elem(it, s.iter, s)
         if self.loop_taint:
@@ -444,6 +457,7 @@ def s_For(self, s, st, frame):
     try:
         return self.loop_fix(s, st, frame, head)
     finally:
+        frame.loopn.pop()
         for name in strong:
             frame.strong.pop(name, None)
 
